@@ -137,6 +137,17 @@ def _b_cb(step, env):
         return df.parallelize(lambda row: None, 1, predicate=lambda row: (maybe(), True)[1])
     if which == 'computed':
         return df.add_computed_field([{'target': 'cc', 'operation': lambda row: (maybe(), 1)[1]}])
+    if which == 'sources_sub':
+        # a sub-flow handed to sources() whose step fails in its end-of-stream code
+        def ender(package):
+            yield package.pkg
+            yield from package
+            maybe()
+        return df.sources(df.Flow([{'sa': 1}, {'sa': 2}], ender), [{'sb': 'x'}])
+    if which == 'sources_sub_row':
+        def rower(row):
+            maybe()
+        return df.sources(df.Flow([{'sa': 1}, {'sa': 2}], rower))
     if which == 'cond_predicate':
         return df.conditional(lambda dp: (maybe(), True)[1], df.Flow(df.add_field('cp', 'integer', 1)))
     if which == 'cond_factory':
@@ -230,6 +241,8 @@ PIPELINES = {
     'delete_later': [SRC, S('add_field', 'z', 'integer', 7), S('dump_to_path', {'$path': 'dump'}), S('delete_resource', 'r1'),
                      S('add_field', 'y', 'integer', 8)],
     'delete_later2': [SRC, S('add_field', 'z', 'integer', 7), S('delete_resource', 'r2'), S('dump_to_path', {'$path': 'dump'})],
+    'sources_sub': [SRC, {'op': 'c04_cb', 'which': 'sources_sub', 'id': 'sources_sub'}, S('dump_to_path', {'$path': 'dump'})],
+    'sources_sub_row': [SRC, {'op': 'c04_cb', 'which': 'sources_sub_row', 'id': 'sources_sub_row'}, S('dump_to_path', {'$path': 'dump'})],
     'iterobj': [{'op': 'c04_iterobj', 'n': 5}, S('add_field', 'z', 'integer', 7), S('dump_to_path', {'$path': 'dump'})],
     'iterobj_second': [SRC, {'op': 'c04_iterobj', 'n': 3}, S('dump_to_path', {'$path': 'dump'})],
     'generator': [{'op': 'c04_gen', 'n': 130}, S('add_field', 'z', 'integer', 7), S('dump_to_path', {'$path': 'dump'})],
@@ -316,6 +329,11 @@ def run_case(case):
             res = ('exc', e)
         committed = committed_artefacts(env, steps, positions)
     viol = []
+    if not fault.fired and ((inject[0] == 'wrap' and inject[1] == 0 and inject[2][0] in ('pkg', 'iter-end')) or
+                            (inject[0] == 'cb' and inject[1] in ('sources_sub', 'sources_sub_row') and inject[2] == 0)):
+        # the package phase and the end-of-stream code of a step run wherever it stands in the chain, inside a sub-flow handed
+        # to sources() as well
+        return [('fault-skipped', '%s: the run returned normally and the failing code was never executed' % label)], 'violated', True
     if not fault.fired:
         if pipe in DRAINED and inject[0] == 'wrap' and inject[2][0] in ('row', 'end') and \
                 inject[1] <= [i for i, s_ in enumerate(PIPELINES[pipe]) if s_.get('op') == 'delete_resource'][0]:
@@ -390,6 +408,10 @@ def cases_for(pipe, classes):
             for at in range(1, n + 1):
                 for spec in specs:
                     out.append({'pipe': pipe, 'cls': cls, 'entry': entry, 'inject': ['wrap', at, list(spec)]})
+            if pipe in ('rowwise', 'dumps', 'checkpoint', 'delete_later'):
+                # a step placed before the first source: no resource reaches it, its package and end-of-stream code still run
+                for spec in (('pkg',), ('iter-end',)):
+                    out.append({'pipe': pipe, 'cls': cls, 'entry': entry, 'inject': ['wrap', 0, list(spec)]})
             for s in steps:
                 if s.get('op') == 'c04_cb':
                     for k in (0, 1, 2):
